@@ -274,7 +274,7 @@ def run_case(case, ctx):
                 a.cmd("run_up_to_including", [float(b), "s"] if prog["clock"] == "duration" else b)
             a.wait_quiescent(20)
             a.replication = normal
-        elif hist == "chained" and case["k"] != 1:
+        elif hist == "chained" and case["k"] not in (1, 3):
             a.cmd("start")       # (only a fifth of these cases chain: initialising from the run thread costs the library's own waits, ~2 s)
         elif hist == "chained":
             # the next replication is initialised from inside the END_REPLICATION notification of this one (an experiment
@@ -282,7 +282,8 @@ def run_case(case, ctx):
             chained = {}
 
             def on_end(name, event):
-                if name == "END_REPLICATION_EVENT" and "out" not in chained:
+                # (k == 3: one notification earlier - from the STOP notification of the run that reached the end)
+                if name == ("END_REPLICATION_EVENT" if case["k"] == 1 else "STOP_EVENT") and "out" not in chained:
                     chained["first_h"], chained["first_n"], chained["n_inits"] = len(a.hlog), len(a.nlog), a.inits
                     chained["old_worker"] = a.worker()
                     chained["out"] = a.cmd("initialize")
@@ -408,7 +409,7 @@ def run_case(case, ctx):
         _swap_program(a, prog)
         first_h, first_n = len(a.hlog), len(a.nlog)
         n_inits = a.inits
-        if hist == "chained" and case["k"] == 1 and "out" in chained:
+        if hist == "chained" and case["k"] in (1, 3) and "out" in chained:
             first_h, first_n, n_inits, out = chained["first_h"], chained["first_n"], chained["n_inits"], chained["out"]
             ctx.count("replications_initialised_from_the_END_REPLICATION_notification")
         else:
@@ -434,6 +435,12 @@ def run_case(case, ctx):
             ctx.viol("state-right-after-initialize:not-construct-events-plus-one-warmup", {**where, "got": snap, "want_pending": len(r0.pending),
                                                                                           "want_clock": r0.start})
             return
+        if hist == "chained" and case["k"] == 3 and snap.get("run_state") == "STOPPED":
+            # initialised from inside the STOP notification: the old run thread writes STOPPED after the notification returns
+            # (a command overlapping the run thread's own transition - C04's subject and among its known findings); the
+            # replication itself is judged
+            snap = dict(snap, run_state=fsnap["run_state"])
+            ctx.count("replications_initialised_from_the_STOP_notification")
         if snap != fsnap:
             ctx.viol("state-right-after-re-initialize", {**where, "got": snap, "fresh": fsnap})
             return
